@@ -183,7 +183,7 @@ def facts_dir(config, root=None):
         lockf.close()
 
 
-def _prune_cache(keep, maxn=12):
+def _prune_cache(keep, maxn=48):
     d = os.path.join(CACHE, "facts")
     ents = [os.path.join(d, e) for e in os.listdir(d) if not e.endswith(".tmp")]
     ents = [e for e in ents if e != keep]
@@ -372,7 +372,7 @@ def _helper_role(cname, f):
             return "ser_named_type"
         if len(ins) == 2 and ins[0].endswith("OwnedDataModelType") and strip(ins[1]) == "&[u8]" and ok and strip(ok) == "(serde_json::Value, &[u8])":
             return "deserialize"
-    if cname == "postcard" and f.get("dk") == "Fn" and f.get("vis") != "Public" and (f.get("parent") or "").endswith("max_size") and out == "usize" and not f.get("generics"):
+    if cname == "postcard" and f.get("dk") == "Fn" and f.get("vis") != "Public" and re.search(r"(^|::)max_size(::|$)", f.get("parent") or "") and out == "usize" and not f.get("generics"):
         if ins == ["usize"]:
             return "varint_size"
         if ins == ["usize", "usize"]:
@@ -509,5 +509,9 @@ _loaded = {}
 def load(config="A", root=None):
     k = (config, root)
     if k not in _loaded:
-        _loaded[k] = Facts(config, root)
+        try:
+            _loaded[k] = Facts(config, root)
+        except FileNotFoundError:
+            # another process pruned the cache entry between the lookup and the read (many trees analysed in parallel): extract again
+            _loaded[k] = Facts(config, root)
     return _loaded[k]
